@@ -7,3 +7,4 @@ import CC.Thm.C11
 #print axioms CC.Thm.C11.no_reuse
 #print axioms CC.Thm.C11.nonce_words_fixed
 #print axioms CC.Thm.C11.source_glue_match
+#print axioms CC.Thm.C11.source_seeknum_match
